@@ -115,7 +115,6 @@ from gen import Gen
 POSITIONS = ["field", "vec", "option", "hashmap-value", "array", "slice", "generic-arg", "nested-generic", "box",
              "tuple-variant", "struct-variant-field", "alias-target", "alias-vec"]
 # positions `get_dependencies` does not look into (open known finding `uncovered-reference-positions`)
-UNCOVERED = {"array", "slice", "nested-generic", "struct-variant-field"}
 ORDER_LANGS = ["typescript", "python", "kotlin", "swift", "go"]
 
 
@@ -260,14 +259,10 @@ def order_part(check):
             elif acyclic_edges(n, edges):
                 bad = [(i, j, p) for i, j, p in edges if pos[defname(j)] > pos[defname(i)]]
                 if bad:
-                    # an algebraic enum lists *itself* as its first dependency, so the DFS cuts its adjacency list
-                    # short as a "cycle": its references never order the output
-                    enum_edges = [e for e in bad if kinds[e[0]] == "enum"]
-                    if enum_edges and check.known("algebraic-enum-self-dependency", {"lang": lang, "source": text, "misordered": enum_edges}):
-                        bad = [e for e in bad if kinds[e[0]] != "enum"]
-                    # a known finding only if every mis-ordered edge is in an uncovered position or targets a renamed type
-                    if bad and all(p in UNCOVERED or j in renamed or i in renamed for i, j, p in bad):
-                        if check.known("uncovered-reference-positions", {"lang": lang, "source": text, "misordered": bad}):
+                    # a known finding only if every mis-ordered edge involves a serde-renamed type (reconcile has rewritten the
+                    # reference to the new name, the sorter looks names up by the original one)
+                    if all(j in renamed or i in renamed for i, j, p in bad):
+                        if check.known("renamed-types-not-ordered", {"lang": lang, "source": text, "misordered": bad}):
                             bad = []
                     if bad:
                         problem = ("a definition precedes one it refers to", bad)
@@ -284,14 +279,14 @@ def order_part(check):
         check.violation(mismatch["what"], case=mismatch["case"], impl=mismatch["impl"], model=mismatch["model"], failing_input=False,
                         broken="correspondence L2 topsort/get_dependencies (theorems TsV.C11.*)")
         return
-    # stored witness of the open finding
-    wf, _ = build_program(random.Random(1), 2, [(0, 1, "array")])
-    # put T0 (the user) after T1 in source order reversed so that only sorting could fix it
+    # stored witness of the open finding: T0 (renamed) is used by T1; the sorter cannot see the edge
+    wf, _ = build_program(random.Random(1), 2, [(1, 0, "field")], renamed=[0])
+    wf["items"].sort(key=lambda it: it["ident"], reverse=True)     # source order T1, T0: only sorting could fix it
     a = runner([l2.requests("python", {"type_mappings": {}}, [{"crate": "", "file_name": "o", "path": "w.rs", "file": wf}], Gen(rng))[1]])[0]
     if "ok" in a:
         o = definition_order("python", a["ok"][""])
-        if "T0" in o and "T1" in o and o.index("T0") < o.index("T1"):
-            check.known("uncovered-reference-positions", {"lang": "python", "witness": "struct T0 { f0: [T1; 2] } is emitted before T1"})
+        if "T1" in o and "R0" in o and o.index("T1") < o.index("R0"):
+            check.known("renamed-types-not-ordered", {"lang": "python", "witness": "struct T1 { f0: T0 } with #[serde(rename = \"R0\")] struct T0 is emitted before R0"})
 
 
 _run_graphs = run
